@@ -1,5 +1,6 @@
 """C02 - ICAO address recovery: exact for every downlink format, canonical across formats and hex case."""
 import random
+import re
 
 from engine import loader
 from engine.runner import Acc
@@ -27,6 +28,12 @@ def addresses(seed, extra=24):
     a += [1 << i for i in range(24)] + [0xFFFFFF ^ (1 << i) for i in range(24)]
     rng = random.Random(seed)
     a += [rng.getrandbits(24) for _ in range(extra)]
+    # addresses the source of the tree under test writes down (6-hex-digit strings, integers of 17..24 bits): an address
+    # that is treated specially has to be named somewhere
+    from engine.util import source_words
+    w = source_words()
+    lit = sorted({int(x, 16) for x in w["strs"] if re.fullmatch(r"[0-9A-Fa-f]{6}", x)} | {x for x in w["ints"] if 0xFFFF < x < (1 << 24)})
+    a += lit[:48]
     return list(dict.fromkeys(a))
 
 
